@@ -1,8 +1,12 @@
 #!/bin/bash
-# save_seeded.sh <mutant-worktree> <A|B> <slug> "<verified line>"
-WT=$1; X=$2; SLUG=$3; VER="$4"
+# save_seeded.sh <mutant-worktree> <A|B> <slug> "<verified line>" [<letter in seeded/>]
+# <A|B> names the sub-directory out/<A|B> of the worktree; the optional 5th argument is the letter
+# used in the seeded/ directory name (default: the same). Refuses to save when the patch or the
+# demonstration is missing (a round-5 slip lost three verified changes that way).
+WT=$1; X=$2; SLUG=$3; VER="$4"; Y=${5:-$X}
 P=$(basename $WT)
-D=/verif/seeded/$P-$X-$SLUG
+if [ ! -s $WT/out/$X/patch.diff ] || [ ! -s $WT/out/$X/demo.rs ]; then echo "save_seeded: $WT/out/$X/{patch.diff,demo.rs} missing - nothing saved"; exit 1; fi
+D=/verif/seeded/$P-$Y-$SLUG
 mkdir -p $D
 cp $WT/out/$X/patch.diff $D/patch.diff
 cp $WT/out/$X/demo.rs $D/demo.rs
